@@ -40,14 +40,22 @@ CLAIMS = {
              "far end points, sub-pixel and degenerate shapes, offsets, pre-filled targets) must equal before (+) Coverage "
              "with nothing written outside the pixels; abutting pairs vs union (horizontal cut, shared edge, staggered), "
              "offsets, triangles vs decomposition and composite_trapezoids/triangles vs mask+composite32 for all 53 "
-             "operators (direct ADD route, near-direct, bounded and unbounded operators) must give equal buffers.",
+             "operators (direct ADD route, near-direct, bounded and unbounded operators) must give equal buffers; the "
+             "same for every presentation of the source (solid fills, 1x1 repeating a8r8g8b8 / x8r8g8b8 / a8 images "
+             "with opaque and translucent pixels, each with no / translucent / opaque / zero alpha map, non-repeating "
+             "and larger images) crossed with each condition of the direct route negated in turn (mask format, "
+             "destination clip, destination alpha map, source clip in force / not in force, operator).  Edges whose "
+             "deltas sit on and next to the 32-bit limits (+-2^31, +-2^32, either or both deltas, rows 2^31 and more "
+             "below the upper end point) are judged against the mathematical line computed exactly on two-limb "
+             "numbers, which TLC proves equal to the walker on the lattice (WideAgrees, WideRows; a model that "
+             "halves the deltas is rejected).",
         ref="5 C12"),
 }
 
 F1 = 65536
 LIM = 1 << 29                      # |coordinates| below this (specification domain)
 DEV_OF_ID = {"C12-stale-error-term": "stale", "C12-exact-start": "exact0", "C12-whole-slope-backstep": "backstep",
-             "C12-floor-y-wrap": "wrap"}
+             "C12-floor-y-wrap": "wrap", "C12-halved-deltas": "halve"}
 OPS = list(range(0x00, 0x0e)) + list(range(0x10, 0x1c)) + list(range(0x20, 0x2c)) + list(range(0x30, 0x3f))
 ZERO_SRC_NO_EFFECT = {0x02, 0x03, 0x04, 0x08, 0x09, 0x0b, 0x0c}     # Dst Over OverReverse OutReverse Atop Xor Add
 
@@ -795,6 +803,151 @@ def exec_comp(rng, name, count, ops, start):
     return out, stats
 
 
+# ---- composite entry points: the presentations of the SOURCE and the conditions of the direct route
+# pixman_composite_trapezoids rasterises straight into the destination when  op = ADD  and  the source is opaque
+# and  mask_format = destination format  and  the destination has neither clip region nor alpha map  and  no source
+# clip is in force; otherwise it composites a temporary mask.  Whether "the source is opaque" is decided from the
+# image's flags, so the suite walks (a) every way a source can be presented - solid fills, 1x1 repeating bits
+# images of each format the solid-colour shortcut reads directly (a8r8g8b8, x8r8g8b8, a8) with opaque and
+# translucent pixels, each with no / a translucent / an opaque / a zero alpha map, every repeat mode, 1x1 without
+# repeat, larger opaque-by-format images with and without alpha map - times (b) each condition of the shortcut
+# negated in turn (and all of them true), plus the other operators.  Judged by "Eq comp": the destination (and its
+# alpha map) equals the one obtained from rasterising a mask and compositing it with the same source.
+
+def src_presentations():
+    pres = [("solid-opaque", None), ("solid-translucent", None)]
+    for fmt in (32, 24, 8):
+        for px in (("opaque", "translucent") if fmt != 24 else ("x",)):
+            for am in ("none", "am-translucent", "am-opaque", "am-zero"):
+                pres.append(("1x1-%d-%s-%s" % (fmt, px, am), (fmt, px, am)))
+    pres += [("1x1-norepeat", None), ("1x1-norepeat-am", None), ("big-x888-repeat", None), ("big-x888-repeat-am", None),
+             ("big-8888-am", None)]
+    return pres
+
+
+SRC_PRES = src_presentations()
+COMP_CONDS = ["direct", "direct", "fmt", "dclip", "damap", "sclip", "sclip-off", "op"]
+
+
+def src_lines(pres, rng, W, H):
+    name, spec = pres
+    if name == "solid-opaque":
+        return ["S 2 %d %d %d 65535" % tuple(rng.choice([0, 65535, 0x8000]) for _ in range(3))]
+    if name == "solid-translucent":
+        return ["S 2 %d %d %d %d" % tuple(rng.choice([0, 65535, 0x8000, 0x1234]) for _ in range(4))]
+    if spec is not None:
+        fmt, px, am = spec
+        if fmt == 32:
+            v = (0xff000000 | rng.randrange(1 << 24)) if px == "opaque" else argb(rng)
+        elif fmt == 24:
+            v = rng.randrange(1 << 32)
+        else:
+            v = 255 if px == "opaque" else rng.choice([0, 1, 0x40, 0x80, 254])
+        out = []
+        if am != "none":
+            a = {"am-translucent": rng.choice([1, 0x40, 0x80, 0xfe, rng.randint(1, 254)]), "am-opaque": 255, "am-zero": 0}[am]
+            out.append(img_cmd(6, 8, 1, 1, [a]))
+        out += [img_cmd(2, fmt, 1, 1, [v]), "P 2 %d" % rng.choice([1, 2, 3])]
+        if am != "none":
+            out.append("AM 2 6 0 0")
+        return out
+    if name.startswith("1x1-norepeat"):
+        out = []
+        if name.endswith("am"):
+            out.append(img_cmd(6, 8, 1, 1, [rng.choice([0x40, 0x80, 255])]))
+        out.append(img_cmd(2, rng.choice([32, 24, 8]), 1, 1, [0xffffffff]))
+        if name.endswith("am"):
+            out.append("AM 2 6 0 0")
+        return out
+    sw, sh = rng.choice([(2, 2), (3, 1), (W, H)])
+    out = []
+    if name.endswith("am"):
+        out.append(img_cmd(6, 8, sw, sh, [rng.choice([0, 0x40, 0x80, 255]) for _ in range(sw * sh)]))
+    if name.startswith("big-x888"):
+        out += [img_cmd(2, 24, sw, sh, [argb(rng) for _ in range(sw * sh)]), "P 2 %d" % rng.choice([1, 2, 3])]
+    else:
+        out += [img_cmd(2, 32, sw, sh, [0xff000000 | rng.randrange(1 << 24) for _ in range(sw * sh)]), "P 2 1"]
+    if name.endswith("am"):
+        out.append("AM 2 6 %d %d" % rng.choice([(0, 0), (0, 0), (1, 0)]))
+    return out
+
+
+def rand_boxes(rng, W, H):
+    bs = []
+    for _ in range(rng.choice([1, 1, 2])):
+        x1, y1 = rng.randint(-1, W - 1), rng.randint(-1, H - 1)
+        bs += [x1, y1, x1 + rng.randint(1, W), y1 + rng.randint(1, H)]
+    return bs
+
+
+def exec_comp_src(rng, name, start, count, ops):
+    """start: running index; presentations, conditions and operators are cycled through across executions"""
+    out = ["R %s" % name]
+    stats = {}
+    for i in range(count):
+        j = start + i
+        pres = SRC_PRES[j % len(SRC_PRES)]
+        cond = COMP_CONDS[(j // len(SRC_PRES)) % len(COMP_CONDS)]
+        W, H = rng.choice([(8, 6), (6, 4), (5, 5)])
+        op = 0x0c
+        dfmt = rng.choice([8, 8, 4, 1])
+        mfmt = dfmt
+        if cond == "fmt":
+            dfmt = rng.choice([8, 4, 1, 32])
+            mfmt = rng.choice([f for f in (1, 4, 8) if f != dfmt])
+        elif cond == "op":
+            op = ops[j % len(ops)]
+            dfmt = rng.choice([32, 32, 8, 4])
+            mfmt = rng.choice([1, 4, 8, 8])
+        unbounded = op not in ZERO_SRC_NO_EFFECT
+        xd, yd = (0, 0) if unbounded else rng.choice([(0, 0), (0, 0), (1, 0), (-1, 1), (2, 1)])
+        xs, ys = rng.choice([(0, 0), (1, 2), (-1, 0), (3, -2)])
+        if dfmt == 32:
+            dpx = [argb(rng) for _ in range(W * H)]
+        else:
+            dpx = [rng.randint(0, (1 << dfmt) - 1) for _ in range(W * H)]
+        if cond == "damap":
+            # the destination's own alpha agrees with its alpha map, so that compositing nothing changes nothing
+            # (the statement does not say how far the temporary mask extends)
+            apx = [rng.choice([0, 0x40, 0x80, 255, rng.randrange(256)]) for _ in range(W * H)]
+            dpx = [a >> (8 - dfmt) for a in apx]
+        out += [img_cmd(0, dfmt, W, H, dpx), img_cmd(1, dfmt, W, H, dpx)]
+        if cond == "damap":
+            out += [img_cmd(7, 8, W, H, apx), "AM 0 7 0 0", img_cmd(8, 8, W, H, apx), "AM 1 8 0 0"]
+        if cond == "dclip":
+            bs = rand_boxes(rng, W, H)
+            out += ["CL %d %d %s" % (sl, len(bs) // 4, " ".join(map(str, bs))) for sl in (0, 1)]
+        out += src_lines(pres, rng, W, H)
+        if cond in ("sclip", "sclip-off"):
+            bs = rand_boxes(rng, W, H)
+            out += ["CL 2 %d %s" % (len(bs) // 4, " ".join(map(str, bs))), "HC 2 1", "CS 2 %d" % (1 if cond == "sclip" else 0)]
+        tri = rng.random() < 0.25
+        m = rng.choice([1, 1, 2])
+        if tri:
+            shapes = [gen_triangle(mfmt, W, H, rng, xd, yd) for _i in range(m)]
+            traps = [t for tr in shapes for t in tri_to_traps(tr)]
+        else:
+            shapes = []
+            for _i in range(m):
+                for _t in range(100):
+                    _, tz = pick_shape(mfmt, W, H, rng, xd, yd, kinds=("lattice", "through", "random", "stale", "exact"))
+                    if max(abs(v) for v in tz) < 40 * F1 and spans(tz):
+                        break
+                shapes.append(tz)
+            traps = shapes
+        flat = " ".join(str(v) for sh_ in shapes for v in sh_)
+        out.append("%s %d 2 0 %d %d %d %d %d %d %s" % ("CG" if tri else "CT", op, mfmt, xs, ys, xd, yd, m, flat))
+        out.append(img_cmd(3, mfmt, W, H))
+        out += [rt(3, xd, yd, t) for t in traps]
+        out.append("CI %d 2 3 1 %d %d 0 0 0 0 %d %d" % (op, xs - xd, ys - yd, W, H))
+        out.append("EQ comp 0 1")
+        if cond == "damap":
+            out.append("EQ comp 7 8")
+        stats["src-" + pres[0]] = stats.get("src-" + pres[0], 0) + 1
+        stats["cond-" + cond] = stats.get("cond-" + cond, 0) + 1
+    return out, stats
+
+
 def spans(tz):
     """both edges span the trapezoid's vertical range (the domain in which the library's extents hold)"""
     if not trap_valid(tz):
@@ -848,6 +1001,196 @@ def exec_walks(rng, name, count):
             if edge_ok((xt + xo * F1, yt + yo * F1, xb + xo * F1, yb + yo * F1), [ystart, ystart + F1], n):
                 out.append("WL %d %d %d %d %d %d %d %d" % ((n, ystart) + p + (xo, yo)))
     return out
+
+
+# ---- edges whose deltas sit on and next to the 32-bit limits (pixman_edge_init narrows 33-bit deltas)
+# The difference of two 16.16 numbers needs 33 bits; pixman_edge_init takes quotient and remainder in 64 bits and
+# must halve both deltas when dy itself does not fit, and y_start - y_top needs 33 bits as well.  The suite walks
+# the structure of that code: each delta takes the values around +-2^31 and +-2^32 (and ordinary ones), the three
+# combinations (dx at a limit, dy at a limit, both), both directions, every depth; the edge is placed so that it
+# still crosses a small image at the sampled rows (end points as far out as the 16.16 range allows) and spans the
+# trapezoid's vertical range.  Python only places the edges and filters the domain (no 32-bit wrap of an
+# abscissa); the verdict is TLC's, by the exact two-limb arithmetic of Trap!LineX / the cursor.
+
+M31 = 1 << 31
+LIMIT_MAGS = [M31 - 2, M31 - 1, M31, M31 + 1, M31 + 2, 2 * M31 - 2, 2 * M31 - 1]
+
+
+def wide_x(line, y):
+    """the abscissa the specification's walker holds on row y (exact integers; domain filtering only)"""
+    xt, yt, xb, yb = line_top_bot(*line)
+    dx, dy = xb - xt, yb - yt
+    num = (y - yt) * dx
+    fl = num // dy
+    if dx >= 0 and dx % dy != 0:
+        return xt + fl + (1 if num % dy else 0) - 1
+    return xt + fl
+
+
+def wide_edge_ok(line, rows):
+    xt, yt, xb, yb = line_top_bot(*line)
+    if yb <= yt or min(xt, yt, xb, yb) < -M31 or max(xt, yt, xb, yb) >= M31:
+        return False
+    stepx = abs(xb - xt) // (yb - yt)
+    if stepx >= 8192:
+        return False
+    for y in rows:
+        if not -M31 <= y < M31:
+            return False
+        if abs(y - yt) * stepx >= M31 or abs(wide_x(line, y)) >= M31 - 2 * F1:
+            return False
+    return True
+
+
+def tall_odd(line):
+    """dy does not fit 32 bits and a delta is odd: no pixman_edge_t follows that line exactly
+       (known finding C12-halved-deltas; judged within two units, Walk / LineInit only)"""
+    xt, yt, xb, yb = line_top_bot(*line)
+    return yb - yt >= M31 and ((xb - xt) % 2 == 1 or (yb - yt) % 2 == 1)
+
+
+def ordinary_deltas(rng, thorough):
+    dys = [5 * F1 + 1, 100 * F1, 100 * F1 + 1, 6553603, 20000 * F1 + 12345, 3 * (M31 // 4) + 1, rng.randint(5 * F1, M31 - 3)]
+    dxs = [0, 1, -1, 3 * F1 + 1, -(3 * F1 + 1), rng.randint(-M31 + 3, M31 - 3), rng.randint(-40 * F1, 40 * F1)]
+    if thorough:
+        dys += [rng.randint(5 * F1, 300 * F1) for _ in range(3)]
+        dxs += [rng.randint(-M31 + 3, M31 - 3) for _ in range(3)]
+    return dxs, dys
+
+
+def limit_delta_pairs(rng, thorough):
+    lims = list(LIMIT_MAGS)
+    if thorough:
+        lims += [M31 + rng.randint(3, 70000), M31 - rng.randint(3, 70000), 2 * M31 - rng.randint(3, 70000),
+                 M31 + 10 * F1, M31 + 10 * F1 + 2]
+    else:
+        lims += [M31 + 10 * F1]
+    dxs, dys = ordinary_deltas(rng, thorough)
+    pairs = []
+    for m in lims:
+        for sg in (1, -1):
+            pairs += [(sg * m, dy, "dx") for dy in dys]                    # dx at a limit, dy ordinary
+            pairs += [(sg * m, dy, "both") for dy in lims]                 # both at a limit
+    for m in lims:
+        pairs += [(dx, m, "dy") for dx in dxs]                             # dy at a limit, dx ordinary
+    # the first delta no pixman_fixed_t holds (and the last one it does), with further heights of either parity
+    more = [6 * F1, 33 * F1 + 2, 1000 * F1 + 1, 2 * rng.randint(3 * F1, M31 // 2 - 1), 2 * rng.randint(3 * F1, 300 * F1) + 1]
+    for m in (M31, M31 - 1):
+        for sg in (1, -1):
+            pairs += [(sg * m, dy, "dx") for dy in more]
+    return pairs
+
+
+def place_edge(dx, dy, n, W, H, rng):
+    """end points (xt, yt, xb, yb) with the given deltas such that the edge passes a sample row of the image near
+       the image (abscissa within [-1, W + 1] pixels there); None if the 16.16 range does not allow it"""
+    g = GRIDS[n]
+    for _ in range(40):
+        y0 = rng.randint(0, H - 1) * F1 + rng.choice(g.rows)
+        klo, khi = max(0, y0 + dy - (M31 - 1)), min(dy, y0 + M31)
+        if klo > khi:
+            continue
+        xlo, xhi = max(-M31, -M31 - dx), min(M31 - 1, M31 - 1 - dx)          # admissible xt
+        wlo, whi = -F1, (W + 1) * F1                                          # where the edge shall pass row y0
+        # off = floor (k dx / dy) must leave an xt = target - off in [xlo, xhi] for a target in [wlo, whi]
+        if dx != 0:
+            a, b = sorted([(wlo - xhi) * dy // dx, (whi - xlo) * dy // dx])
+            klo2, khi2 = max(klo, a - 2), min(khi, b + 2)
+        else:
+            klo2, khi2 = klo, khi
+        if klo2 > khi2:
+            continue
+        cands = [klo2, khi2, rng.randint(klo2, khi2), rng.randint(klo2, khi2), (klo2 + khi2) // 2]
+        if khi2 - klo2 < 8:
+            cands = list(range(klo2, khi2 + 1))
+        rng.shuffle(cands)
+        xt = None
+        for k0 in cands:
+            off = (k0 * dx) // dy
+            tlo, thi = max(xlo, wlo - off), min(xhi, whi - off)
+            if tlo <= thi:
+                xt = rng.choice([tlo, thi, rng.randint(tlo, thi)])
+                break
+        if xt is None:
+            continue
+        yt = y0 - k0
+        return (xt, yt, xt + dx, yt + dy), y0
+    return None
+
+
+def exec_limits(rng, name, pairs):
+    """Walk / LineInit events for every pair of deltas, rasterisations and abutting pairs for those a trapezoid can use"""
+    out = ["R %s" % name]
+    stats = {}
+
+    def bump(k):
+        stats[k] = stats.get(k, 0) + 1
+
+    for dx, dy, which in pairs:
+        n = rng.choice([1, 4, 8])
+        g = GRIDS[n]
+        W, H = rng.choice([(8, 2), (5, 3), (3, 1), (8, 1)])
+        pl = place_edge(dx, dy, n, W, H, rng)
+        if pl is None:
+            bump("limit-unplaceable")
+            continue
+        line, y0 = pl
+        xt, yt, xb, yb = line
+        residual = tall_odd(line)
+        # (i) the walker: init on / near the row, steps of either sign
+        for _t in range(30):
+            ystart = rng.choice([y0, y0, y0 + rng.randint(-F1, F1), max(yt, min(yb, y0 + rng.randint(-3 * F1, 3 * F1)))])
+            steps, rows, y = [], [ystart], ystart
+            for _s in range(rng.randint(0, 5)):
+                k = rng.choice([g.sys, g.sys, g.syb, F1, -g.sys, -g.syb, -F1, 1, -1, rng.randint(-2 * F1, 2 * F1)])
+                steps.append(k)
+                y += k
+                rows.append(y)
+            if wide_edge_ok(line, rows + [r + F1 for r in rows]):
+                out.append("W %d %d %d %d %d %d %d %s" % (n, ystart, xt, yt, xb, yb, len(steps), " ".join(map(str, steps))))
+                bump("limit-walk-" + which + ("-tallodd" if residual else ""))
+                break
+        if rng.random() < 0.3 and wide_edge_ok(line, [y0, y0 + F1]):
+            p = (xt, yt, xb, yb) if rng.random() < 0.5 else (xb, yb, xt, yt)
+            out.append("WL %d %d %d %d %d %d 0 0" % ((n, y0) + p))
+            bump("limit-lineinit")
+        if residual:
+            continue
+        # (ii) a trapezoid bounded by the edge: its rows are the sample rows of the image the edge spans
+        top = max(yt, rng.choice([-F1, 0, y0 - g.sys, y0]))
+        bot = min(yb, rng.choice([(H + 1) * F1, H * F1, y0 + 1, y0 + g.sys + 1, y0 + F1]))
+        if bot <= top:
+            continue
+        tb = trap_rows([top, bot], n, H, 0)
+        if tb is None or tb[1] < tb[0] or not wide_edge_ok(line, [tb[0], tb[1], tb[1] + F1]):
+            continue
+        vl = (-F1, top - 1, -F1, bot + 1)
+        vr = ((W + 1) * F1, top - 1, (W + 1) * F1, bot + 1)
+        if rng.random() < 0.25:
+            # the other side is the same line a little further on (another limit edge)
+            sh = rng.choice([1, g.sxs, F1, 3 * F1 + 7])
+            other = (xt + sh, yt, xb + sh, yb)
+            if wide_edge_ok(other, [tb[0], tb[1], tb[1] + F1]):
+                vr = other
+        if rng.random() < 0.5:
+            line = (xb, yb, xt, yt)                          # end points given bottom first
+        u = rng.random()
+        if u < 0.4:
+            out += [img_cmd(0, n, W, H, rand_pixels(n, W, H, rng) if rng.random() < 0.2 else None),
+                    rt(0, 0, 0, [top, bot] + list(line) + list(vr))]
+            bump("limit-rast-left-" + which)
+        elif u < 0.8:
+            out += [img_cmd(0, n, W, H), rt(0, 0, 0, [top, bot] + list(vl) + list(line))]
+            bump("limit-rast-right-" + which)
+        else:
+            # the two sides of the edge abut along it: together they are the strip between the vertical edges
+            vr = ((W + 1) * F1, top - 1, (W + 1) * F1, bot + 1)
+            pr = [rt(1, 0, 0, [top, bot] + list(vl) + list(line)), rt(1, 0, 0, [top, bot] + list(line) + list(vr))]
+            rng.shuffle(pr)
+            out += [img_cmd(0, n, W, H), rt(0, 0, 0, [top, bot] + list(vl) + list(vr)), img_cmd(1, n, W, H)] + pr
+            out.append("EQ vsplit 0 1")
+            bump("limit-vsplit-" + which)
+    return out, stats
 
 
 def exec_sample_y(rng, name, extremes):
@@ -961,6 +1304,9 @@ MC_RUNS = {
     "walker": ("TrapMC", "TrapMC.cfg", False, ("thorough",)),
     "walker-d8": ("TrapMC", "TrapMC_d8.cfg", False, ("quick", "thorough")),
     "walker-real": ("TrapMC", "TrapMC_real.cfg", False, ("thorough",)),
+    "walker-wide": ("TrapMC", "TrapMC_wide.cfg", False, ("quick", "thorough")),
+    "walker-wide-full": ("TrapMC", "TrapMC_wide_full.cfg", False, ("thorough",)),
+    "walker-neg-halve": ("TrapMC", "TrapMC_neg_halve.cfg", True, ("quick", "thorough")),
     "walker-neg-inite": ("TrapMC", "TrapMC_neg_inite.cfg", True, ("quick", "thorough")),
     "walker-neg-corr": ("TrapMC", "TrapMC_neg_corr.cfg", True, ("quick", "thorough")),
     "walker-neg-stale": ("TrapMC", "TrapMC_neg_stale.cfg", True, ("quick", "thorough")),
@@ -1052,6 +1398,18 @@ def run(prop, args):
         add(*exec_comp(rng, "comp%d" % i, 12, OPS, 12 * i))
     for i in range(12 * scale):
         add(exec_walks(rng, "walk%d" % i, 200))
+    # deltas on and next to the 32-bit limits: every pair once (thorough: further placements and neighbours)
+    k = 0
+    for rep in range(1 if quick else 8):
+        pairs = limit_delta_pairs(rng, not quick)
+        rng.shuffle(pairs)
+        for i in range(0, len(pairs), 40):
+            add(*exec_limits(rng, "lim%d" % k, pairs[i:i + 40]))
+            k += 1
+    # source presentations x conditions of the direct route: the whole matrix once (thorough: eight times)
+    nsc = len(SRC_PRES) * len(COMP_CONDS) * (1 if quick else 8)
+    for i in range(0, nsc, 18):
+        add(*exec_comp_src(rng, "csrc%d" % (i // 18), i, min(18, nsc - i), OPS))
     add(exec_sample_y(rng, "sampley", extremes=True))
     chk.extra["executions"] = len(execs) + 1
     chk.extra["generated_by_kind"] = stats
@@ -1111,8 +1469,15 @@ def run(prop, args):
                          "rasterisation that changed the image, distinct walker state sequence, or distinct "
                          "non-empty pair of images compared")
     chk.assumptions += [
-        "coordinates below 2^29 in magnitude (8192 pixels); edges whose abscissa extrapolated to a sampled row or by "
-        "one grid step stays inside the 32-bit range (pixman wraps there); slopes below 8192 units per unit",
+        "general suites: coordinates below 2^29 in magnitude (8192 pixels); limit suite: end points anywhere in the "
+        "16.16 range (deltas of up to 33 bits, judged by exact two-limb arithmetic); in both, edges whose abscissa "
+        "extrapolated to a sampled row or by one grid step stays inside the 32-bit range (pixman wraps there) and "
+        "slopes below 8192 units per unit",
+        "an edge taller than the 16.16 range (yb - yt >= 2^31) with an odd delta cannot be held by the 32-bit "
+        "pixman_edge_t: judged only through pixman_edge_init / pixman_line_fixed_edge_init and, when the known "
+        "finding C12-halved-deltas is open, accepted within two units of the exact line (reported as a deviation)",
+        "a destination with an alpha map starts with its own alpha equal to the map's, so that compositing a zero "
+        "mask changes nothing (the statement does not fix the extents of the temporary mask)",
         "the sample columns are the effective positions derived from RENDER_SAMPLES_X and the a1 half-pixel shift "
         "(a1: centre + 1/65536; a4: 6553 + k*13107; a8: 1927 + k*3855); a sample lying exactly on an edge line is "
         "attributed by the walker (inside for the left edge iff the edge runs right with a fractional slope)",
